@@ -7,12 +7,19 @@
 # and the copy is removed. Exit code and stdout are those of ./check.
 set -u
 REPO_DIR=$(readlink -f "$1"); ID=$2; TIER=${3:-quick}
+ORIGPWD=$(pwd)
 SRC=$(cd "$(dirname "$0")/.." && pwd)
 BASE=/dev/shm; [ -d $BASE ] || BASE=${TMPDIR:-/tmp}
 ALT=$(mktemp -d "$BASE/verif-alt-XXXXXX")
 trap 'rm -rf "$ALT"' EXIT
 rsync -a --exclude .git --exclude .build --exclude out --exclude evidence "$SRC/" "$ALT/"
 sed -i "s#=> /repo#=> $REPO_DIR#" "$ALT/harness/go.mod"
+if [ "$ID" = "--replay" ]; then
+  # tools/run_against.sh <repo_dir> --replay <file>
+  RF=$(readlink -f "$3")
+  cd "$ALT" && ./check --replay "$RF"
+  exit $?
+fi
 cd "$ALT" && ./check "$ID" --tier "$TIER"
 rc=$?
 if [ -d "$ALT/out/$ID/violations" ]; then
